@@ -537,3 +537,11 @@ def h_conj(h: H):
 
 
 register(Unit(P, "CONJ/to_pyarrow_compute_expression", h_conj, functions=[f"{FL}:to_pyarrow_compute_expression"]))
+
+
+# =================================================================================== ENGINE (read path; harnesses in readpath.py)
+from contracts import readpath as _rp  # noqa: E402
+
+for _n, _hf, _fs in _rp.READ_UNITS:
+    register(Unit(P, _n, _hf, functions=_fs, replay=_rp._replay_reads))
+META["trusted"] = META["trusted"] + _rp.META["trusted"]
